@@ -9,7 +9,8 @@
         tables of a function record) and the opcode loop: bounded by the DATA LENGTH, for ANY declared count / offset / code
         length — a round that completes has read input at a position that only moves forward;
       * loop detection: linear in the size of the statement tree;
-      * `JumpOpcode.process`: at most two rounds per statement built so far, per backward jump;
+      * `JumpOpcode.process`: at most two rounds per statement built so far, per backward jump; every opcode appends at most
+        one statement, so the whole pass makes at most 2·(instructions)² rounds — for EVERY input (`jump_pass_quadratic`);
       * condition detection: `(4·maxLen + 1)·(calls + ops)` for EVERY input (accounting bound); with every jz operation
         handled once this is the quadratic bound `cond_steps_quadratic_partial`.
   (3) F37 IN THE MODEL.  `jump_rounds_quadratic`: on the family `(01 54 01)ⁿ` (n empty-bodied loops in a row, 3·n bytes of
@@ -25,6 +26,7 @@ import DrxProofs.LscrStepsCond
 import DrxProofs.LscrStepsCondEq
 import DrxProofs.LscrStepsTotal
 import DrxProofs.LscrStepsWitness
+import DrxProofs.LscrStepsStmts
 namespace Drx.C10Lscr
 open Drx Drx.Lscr Drx.Lscr.Steps
 
@@ -75,6 +77,19 @@ theorem opcode_loop_le_data (ctx : Ctx) (d : Bytes) (bcOff bcLen idxc : Int) (re
 /-- one backward jump: one scan of the statements built so far and at most as many removals -/
 theorem jump_scan_linear (d : Bytes) (idxc : Int) (st : PState) : jumpRounds d idxc st ≤ 2 * st.stmts.length :=
   jumpRounds_le d idxc st
+
+/-- every opcode's `process` appends at most one statement (or rebuilds the list into a shorter one): all classes of the
+    regenerated table, by case analysis of the model -/
+theorem opcode_adds_at_most_one_statement (ctx : Ctx) (info : Gen.Opcodes.OpInfo) (p1 p2 : Nat) (index : Int) (st st' : PState)
+    (h : process ctx info p1 p2 index st = .ok st') : st'.stmts.length ≤ st.stmts.length + 1 := process_stmts h
+
+/-- **the jump pass is at most quadratic, EVERY input** (the upper half of F37 for `JumpOpcode.process`): over a whole handler
+    the two loops of `JumpOpcode.process` make at most `2 · n²` rounds, `n` = instructions executed ≤ bytes of bytecode -/
+theorem jump_pass_quadratic (ctx : Ctx) (d : Bytes) (bcOff bcLen : Int) (regs : Regs) (st : PState) (hst : st.stmts = []) :
+    (opcodeLoopS ctx d bcOff bcLen bcOff regs st).1.jump ≤
+      2 * (opcodeLoopS ctx d bcOff bcLen bcOff regs st).1.rounds * (opcodeLoopS ctx d bcOff bcLen bcOff regs st).1.rounds := by
+  have h := Steps.jump_pass_quadratic ctx d bcOff bcLen bcOff regs st
+  simpa [hst] using h
 
 /-! ## loop detection: linear -/
 
